@@ -6,7 +6,7 @@ import ast, sys
 _m = sys.modules.get("__main__")
 _run = _m if hasattr(_m, "GENERATORS") and hasattr(_m, "generator") else __import__("run")
 generator, parse, find_class, find_func = _run.generator, _run.parse, _run.find_class, _run.find_func
-Untranslatable, HEADER, strlit = _run.Untranslatable, _run.HEADER, _run.strlit
+Untranslatable, HEADER, strlit, literal = _run.Untranslatable, _run.HEADER, _run.strlit, _run.literal
 
 
 def _d(node):
@@ -323,6 +323,85 @@ def _render_buffer(repo):
     raise Untranslatable(f"{what}: loop body implements an unknown decision table {sorted(table.items())}")
 
 
+# ---------------------------------------------------------------- Console.__init__: facts from the environment
+def _console_env(repo):
+    """how the console facts are derived on POSIX:
+       self.no_color (presence of NO_COLOR unless the keyword is given), _detect_color_system
+       (COLORTERM, TERM, _TERM_COLORS), is_dumb_terminal, is_terminal, the color_system keyword"""
+    tree, _ = parse(repo, "rich/console.py")
+    cls = find_class(tree, "Console")
+    init = find_func(cls.body, "__init__")
+    # --- self.no_color
+    nc = [st for st in ast.walk(init) if isinstance(st, ast.Assign) and len(st.targets) == 1
+          and _d(st.targets[0]).replace("Store", "Load") == _expr("self.no_color")]
+    if len(nc) != 1:
+        raise Untranslatable("Console.__init__: expected one assignment to self.no_color")
+    v = _d(nc[0].value)
+    if v not in (_expr('no_color if no_color is not None else "NO_COLOR" in self._environ'),
+                 _expr('("NO_COLOR" in self._environ) if no_color is None else no_color')):
+        raise Untranslatable("Console.__init__: self.no_color is not `no_color if no_color is not None else "
+                             "\"NO_COLOR\" in self._environ` (presence of the variable, whatever its value)")
+    env = [st for st in ast.walk(init) if isinstance(st, ast.Assign) and len(st.targets) == 1
+           and _d(st.targets[0]).replace("Store", "Load") == _expr("self._environ")]
+    if len(env) != 1 or _d(env[0].value) != _expr("os.environ if _environ is None else _environ"):
+        raise Untranslatable("Console.__init__: self._environ changed")
+    # --- the color_system keyword
+    want = _stmts('if color_system is None:\n    self._color_system = None\nelif color_system == "auto":\n'
+                  '    self._color_system = self._detect_color_system()\nelse:\n    self._color_system = COLOR_SYSTEMS[color_system]')[0]
+    if want not in [_d(st) for st in init.body]:
+        raise Untranslatable("Console.__init__: the color_system keyword is handled differently")
+    lw = _stmts("self.legacy_windows: bool = ((detect_legacy_windows() and not self.is_jupyter) if legacy_windows is None else legacy_windows)")[0]
+    if lw not in [_d(st) for st in init.body]:
+        raise Untranslatable("Console.__init__: legacy_windows default changed")
+    ft = _stmts("self._force_terminal = force_terminal")[0]
+    if ft not in [_d(st) for st in init.body]:
+        raise Untranslatable("Console.__init__: force_terminal is not stored as given")
+    # --- _TERM_COLORS
+    tc = _run.find_assign(tree, "_TERM_COLORS")
+    if not (isinstance(tc, ast.Dict) and all(isinstance(k, ast.Constant) and isinstance(k.value, str) for k in tc.keys)
+            and all(isinstance(x, ast.Attribute) and _d(x.value) == _expr("ColorSystem") for x in tc.values)):
+        raise Untranslatable("_TERM_COLORS is not a {str: ColorSystem.X} literal")
+    sysnum = {"STANDARD": 1, "EIGHT_BIT": 2, "TRUECOLOR": 3, "WINDOWS": 4}
+    term_colors = [(k.value, sysnum[x.attr]) for k, x in zip(tc.keys, tc.values)]
+    # --- _detect_color_system
+    det = _body(find_func(cls.body, "_detect_color_system"))
+    if len(det) != 3 or not isinstance(det[2], ast.If) or _d(det[2].test) != _expr("WINDOWS"):
+        raise Untranslatable("_detect_color_system: unexpected statement shape")
+    if [_d(x) for x in det[:2]] != _stmts("if self.is_jupyter:\n    return ColorSystem.TRUECOLOR\n"
+                                           "if not self.is_terminal or self.is_dumb_terminal:\n    return None"):
+        raise Untranslatable("_detect_color_system: the jupyter / non-terminal / dumb-terminal guards changed")
+    posix = det[2].orelse
+    tup = None
+    for n in ast.walk(ast.Module(body=posix, type_ignores=[])):
+        if isinstance(n, ast.Compare) and _d(n.left) == _expr("color_term") and len(n.ops) == 1 and isinstance(n.ops[0], ast.In):
+            tup = literal(n.comparators[0], "COLORTERM values")
+    if not (isinstance(tup, tuple) and all(isinstance(x, str) for x in tup)):
+        raise Untranslatable("_detect_color_system: `color_term in (<strings>)` not found")
+    expect = _stmts('color_term = self._environ.get("COLORTERM", "").strip().lower()\n'
+                    f'if color_term in {tup!r}:\n    return ColorSystem.TRUECOLOR\n'
+                    'term = self._environ.get("TERM", "").strip().lower()\n'
+                    '_term_name, _hyphen, colors = term.partition("-")\n'
+                    'color_system = _TERM_COLORS.get(colors, ColorSystem.STANDARD)\nreturn color_system')
+    if [_d(x) for x in posix] != expect:
+        raise Untranslatable("_detect_color_system: the POSIX branch changed")
+    # --- is_dumb_terminal / is_terminal
+    dumb = _body(next(n for n in cls.body if isinstance(n, ast.FunctionDef) and n.name == "is_dumb_terminal"))
+    dt = None
+    for n in ast.walk(ast.Module(body=dumb, type_ignores=[])):
+        if isinstance(n, ast.Compare) and len(n.ops) == 1 and isinstance(n.ops[0], ast.In) and _d(n.left) == _expr("_term.lower()"):
+            dt = literal(n.comparators[0], "dumb terminal names")
+    if not (isinstance(dt, tuple) and all(isinstance(x, str) for x in dt)):
+        raise Untranslatable("is_dumb_terminal: `_term.lower() in (<strings>)` not found")
+    if [_d(x) for x in dumb] != _stmts('_term = self._environ.get("TERM", "")\n' f'is_dumb = _term.lower() in {dt!r}\n'
+                                        'return self.is_terminal and is_dumb'):
+        raise Untranslatable("is_dumb_terminal changed")
+    term = _body(next(n for n in cls.body if isinstance(n, ast.FunctionDef) and n.name == "is_terminal"))
+    if [_d(x) for x in term] != _stmts('if self._force_terminal is not None:\n    return self._force_terminal\n'
+                                        'isatty = getattr(self.file, "isatty", None)\nreturn False if isatty is None else isatty()'):
+        raise Untranslatable("is_terminal changed")
+    return term_colors, list(tup), list(dt)
+
+
 @generator("AnsiFacts.v")
 def gen_ansi_facts(repo):
     tree, _ = parse(repo, "rich/style.py")
@@ -331,6 +410,7 @@ def gen_ansi_facts(repo):
     keyed = _memo_keyed(cls)
     guard_first = _render_buffer(repo)
     carried = _memo_carrying(cls)
+    term_colors, colorterm, dumb = _console_env(repo)
     out = HEADER
     out += "(* Style.render: f\"<0>{attrs}<1>{text}<2>\" *)\n"
     out += "Definition RENDER_SGR_PARTS : list (list Z) :=\n  [" + ";\n   ".join(strlit(p) for p in sgr_parts) + "].\n\n"
@@ -350,4 +430,12 @@ def gen_ansi_facts(repo):
             "   `_ansi` memo of its source (`style._ansi = self._ansi`) or start empty (`= None`)? *)\n")
     for name, v in zip(("COPY", "UPDATE_LINK", "WITHOUT_COLOR", "ADD"), carried):
         out += f"Definition {name}_CARRIES_MEMO : bool := {'true' if v else 'false'}.\n"
+    out += ("\n(* Console.__init__: self.no_color = no_color if no_color is not None else \"NO_COLOR\" in self._environ\n"
+            "   -- the PRESENCE of the variable, whatever its value (statement checked verbatim; also checked: self._environ,\n"
+            "   the color_system keyword None / \"auto\" / COLOR_SYSTEMS[name], legacy_windows and force_terminal defaults,\n"
+            "   is_terminal, is_dumb_terminal and the POSIX branch of _detect_color_system, whose literals follow) *)\n")
+    out += "Definition NO_COLOR_BY_PRESENCE : bool := true.\n"
+    out += "Definition TERM_COLORS : list (list Z * Z) :=\n  [" + ";\n   ".join(f"({strlit(k)}, {v})" for k, v in term_colors) + "].\n"
+    out += "Definition COLORTERM_TRUECOLOR : list (list Z) :=\n  [" + "; ".join(strlit(x) for x in colorterm) + "].\n"
+    out += "Definition DUMB_TERMS : list (list Z) :=\n  [" + "; ".join(strlit(x) for x in dumb) + "].\n"
     return out
